@@ -216,10 +216,20 @@ PURE_STDLIB = {
     're.search': lambda it, p, s, *a: re.search(p, s, *a), 're.split': lambda it, p, s, *a: re.split(p, s, *a), 're.findall': lambda it, p, s, *a: re.findall(p, s, *a),
     're.escape': lambda it, s: re.escape(s), 're.compile': lambda it, p, *a: re.compile(p, *[x for x in a if isinstance(x, int)]),
     're.finditer': lambda it, p, s, *a: list((p if isinstance(p, re.Pattern) else re.compile(p)).finditer(s)),
+    'defaultdict': lambda it, f=None: _defaultdict(f), 'collections.defaultdict': lambda it, f=None: _defaultdict(f),
+    'OrderedDict': lambda it, *a: dict(*a), 'collections.OrderedDict': lambda it, *a: dict(*a),
     'functools.partial': lambda it, f, *a, **k: _partial(it, f, a, k), 'partial': lambda it, f, *a, **k: _partial(it, f, a, k),
     'operator.itemgetter': lambda it, *ks: ((lambda o: o[ks[0]]) if len(ks) == 1 else (lambda o: tuple(o[k] for k in ks))),
     'itertools.chain': lambda it, *seqs: [x for s_ in seqs for x in s_],
 }
+
+
+def _defaultdict(f):
+    import collections
+    fac = {'str': str, 'list': list, 'int': int, 'dict': dict, 'set': set, 'float': float, None: None}.get(f, f)
+    if fac is not None and not callable(fac):
+        raise AnalysisError('interpreter: defaultdict with a factory that is not modelled')
+    return collections.defaultdict(fac)
 
 
 def _partial(it, f, a, k):
